@@ -8,48 +8,62 @@ Open Scope string_scope.
 (* what a call of resolve_var does *)
 Inductive vres : Type :=
 | RNone                       (* returns None: the token has no var() *)
-| RToks (l : list tok).       (* returns the substituted component values *)
+| RToks (l : list tok)        (* returns the substituted component values *)
+| RInvalid.                   (* raises InvalidValues: invalid at computed-value time *)
 
-(* for value in values: resolved = rv(value); computed_value.extend((value,) if resolved is None else resolved)
-   None = out of fuel *)
-Fixpoint subst_each (rv : tok -> option vres) (values : list tok) : option (list tok) :=
+(* what resolve_vars does: the substituted tokens, or InvalidValues *)
+Inductive sres : Type := SOk (l : list tok) | SInvalid.
+
+(* resolve_vars: for token in tokens: resolved = rv(token); computed_value.extend((token,) if resolved is None
+   else resolved) - the first InvalidValues ends it.  None = out of fuel *)
+Fixpoint subst_each (rv : tok -> option vres) (values : list tok) : option sres :=
   match values with
-  | [] => Some []
+  | [] => Some (SOk [])
   | v :: r =>
       match rv v with
       | None => None
+      | Some RInvalid => Some SInvalid
       | Some res =>
-          let here := match res with RToks l => l | RNone => [v] end in
+          let here := match res with RToks l => l | _ => [v] end in
           match subst_each rv r with
-          | Some rest => Some (here ++ rest)%list
-          | None => None
+          | Some (SOk rest) => Some (SOk (here ++ rest)%list)
+          | other => other
           end
       end
   end.
 
 (* for argument in token.arguments: a function argument is replaced by resolve_var(argument), or kept when that
    is None; the other arguments are kept *)
-Fixpoint rebuild (rv : tok -> option vres) (arguments : list tok) : option (list tok) :=
+Fixpoint rebuild (rv : tok -> option vres) (arguments : list tok) : option sres :=
   match arguments with
-  | [] => Some []
+  | [] => Some (SOk [])
   | a :: r =>
       let here := if is_func a then
                     match rv a with
                     | None => None
-                    | Some RNone => Some [a]
-                    | Some (RToks l) => Some l
+                    | Some RNone => Some (SOk [a])
+                    | Some (RToks l) => Some (SOk l)
+                    | Some RInvalid => Some SInvalid
                     end
-                  else Some [a] in
-      match here, rebuild rv r with
-      | Some l, Some rest => Some (l ++ rest)%list
-      | _, _ => None
+                  else Some (SOk [a]) in
+      match here with
+      | None => None
+      | Some SInvalid => Some SInvalid
+      | Some (SOk l) =>
+          match rebuild rv r with
+          | Some (SOk rest) => Some (SOk (l ++ rest)%list)
+          | other => other
+          end
       end
   end.
 
-(* token.value of the name argument (an ident; a leading comma is a literal) *)
+(* token.value of the name argument *)
 Definition tok_value (t : tok) : string := match t with TIdent v _ => v | TLit v => v | _ => "" end.
 (* f'__{name[2:]}': the key of a custom property in the styles - its exact name, "--" replaced by "__" *)
 Definition var_key (name : string) : string := ("__" ++ drop 2 name)%string.
+
+Definition lift (o : option sres) : option vres :=
+  match o with Some (SOk l) => Some (RToks l) | Some SInvalid => Some RInvalid | None => None end.
 
 Section Resolve.
   (* computed[variable_name]: the tokens of the custom property on this element (cascaded, else inherited),
@@ -66,15 +80,17 @@ Section Resolve.
              | TFunc n ln args =>
                  if negb (String.eqb ln "var") then
                    match rebuild (resolve_var f parents) args with
-                   | Some arguments =>
+                   | Some (SOk arguments) =>
                        let token' := TFunc n ln arguments in
                        (* return resolve_var(computed, token, ...) or (token,) *)
                        match resolve_var f parents token' with
                        | None => None
+                       | Some RInvalid => Some RInvalid
                        | Some RNone => Some (RToks [token'])
                        | Some (RToks []) => Some (RToks [token'])
                        | Some (RToks l) => Some (RToks l)
                        end
+                   | Some SInvalid => Some RInvalid
                    | None => None
                    end
                  else
@@ -83,13 +99,20 @@ Section Resolve.
                    | first :: rest =>
                        let variable_name := var_key (tok_value first) in
                        let default := tl rest in
-                       if str_in variable_name parents then Some (RToks [])   (* cyclic: as if undefined, no fallback *)
+                       if str_in variable_name parents then Some RInvalid      (* cyclic: invalid at computed-value time *)
                        else
-                         let values := env variable_name in
-                         let parents' := match values with [] => parents | _ => (parents ++ [variable_name])%list end in
-                         match subst_each (resolve_var f parents') (match values with [] => default | _ => values end) with
-                         | Some l => Some (RToks l)
-                         | None => None
+                         match env variable_name with
+                         | [] => lift (subst_each (resolve_var f parents) default)
+                         | values =>
+                             match subst_each (resolve_var f (parents ++ [variable_name])%list) values with
+                             | None => None
+                             | Some (SOk l) => Some (RToks l)
+                             | Some SInvalid =>       (* the variable is invalid: its fallback if there is one *)
+                                 match rest with
+                                 | [] => Some RInvalid
+                                 | _ => lift (subst_each (resolve_var f parents) default)
+                                 end
+                             end
                          end
                    | [] => Some RNone     (* not reached: has_var *)
                    end
@@ -97,43 +120,66 @@ Section Resolve.
              end
     end.
 
-  (* ComputedStyle.__missing__, `if pending:` - the tokens handed to Pending.solve: every token of the
-     declaration is resolved by itself, with no memory of the others *)
-  Definition solved_tokens (fuel : nat) (tokens : list tok) : option (list tok) :=
+  (* ComputedStyle.__missing__, `if pending:` - resolve_vars(self, value.tokens): the tokens handed to
+     Pending.solve, or InvalidValues (the property is then unset); every token is resolved by itself *)
+  Definition solved_tokens (fuel : nat) (tokens : list tok) : option sres :=
     subst_each (resolve_var fuel []) tokens.
 End Resolve.
 
 (* ------------------------------------------------------------------ the property's reading: substitution *)
-(* Textual substitution (CSS Custom Properties 1, section 3) over the same trees: a var() function is
-   replaced by the value of its custom property, itself substituted, or by its fallback when the property
-   is not defined; everything else stays.  [key] maps the name written in var() to the name the value is
-   stored under, [fallback] extracts the fallback from the arguments.  parents = the properties being
-   substituted: a reference back to one of them (a cycle) is cut - the implementation's cut gives nothing. *)
+(* Textual substitution (CSS Custom Properties 1, sections 2.3 and 3) over the same trees: a var() function is
+   replaced by the value of its custom property, itself substituted; by its fallback when the property is not
+   defined or is invalid (a property that refers to itself, directly or not, is invalid); the declaration is
+   invalid at computed-value time when an invalid property has no fallback.  Everything else stays.
+   [key] maps the name written in var() to the name the value is stored under, [fallback] extracts the fallback
+   from the arguments, [has_fallback] says whether there is one.  parents = the properties being substituted. *)
 Section Subst.
   Variable env : string -> list tok.
   Variable key : string -> string.
   Variable fallback : list tok -> list tok.
+  Variable has_fallback : list tok -> bool.
   Variable var_name : list tok -> option string.     (* the custom property named by the arguments of var() *)
 
-  Inductive Subst : list string -> tok -> list tok -> Prop :=
-  | S_plain ps t : has_var t = false -> Subst ps t [t]
+  Definition wrap (n ln : string) (o : sres) : sres :=
+    match o with SOk a => SOk [TFunc n ln a] | SInvalid => SInvalid end.
+  Definition glue (a : list tok) (o : sres) : sres :=
+    match o with SOk b => SOk (a ++ b)%list | SInvalid => SInvalid end.
+
+  Inductive Subst : list string -> tok -> sres -> Prop :=
+  | S_plain ps t : has_var t = false -> Subst ps t (SOk [t])
   | S_cycle ps n ln args x :
       has_var (TFunc n ln args) = true -> String.eqb ln "var" = true ->
       var_name args = Some x -> str_in (key x) ps = true ->
-      Subst ps (TFunc n ln args) []
-  | S_var ps n ln args x r :
+      Subst ps (TFunc n ln args) SInvalid
+  | S_defined ps n ln args x r :
       has_var (TFunc n ln args) = true -> String.eqb ln "var" = true ->
-      var_name args = Some x -> str_in (key x) ps = false ->
-      SubstL (match env (key x) with [] => ps | _ => (ps ++ [key x])%list end)
-             (match env (key x) with [] => fallback args | v => v end) r ->
-      Subst ps (TFunc n ln args) r
-  | S_fun ps n ln args args' :
+      var_name args = Some x -> str_in (key x) ps = false -> env (key x) <> [] ->
+      SubstL (ps ++ [key x])%list (env (key x)) (SOk r) ->
+      Subst ps (TFunc n ln args) (SOk r)
+  | S_invalid_alone ps n ln args x :
+      has_var (TFunc n ln args) = true -> String.eqb ln "var" = true ->
+      var_name args = Some x -> str_in (key x) ps = false -> env (key x) <> [] ->
+      SubstL (ps ++ [key x])%list (env (key x)) SInvalid -> has_fallback args = false ->
+      Subst ps (TFunc n ln args) SInvalid
+  | S_invalid_fallback ps n ln args x o :
+      has_var (TFunc n ln args) = true -> String.eqb ln "var" = true ->
+      var_name args = Some x -> str_in (key x) ps = false -> env (key x) <> [] ->
+      SubstL (ps ++ [key x])%list (env (key x)) SInvalid -> has_fallback args = true ->
+      SubstL ps (fallback args) o ->
+      Subst ps (TFunc n ln args) o
+  | S_undefined ps n ln args x o :
+      has_var (TFunc n ln args) = true -> String.eqb ln "var" = true ->
+      var_name args = Some x -> str_in (key x) ps = false -> env (key x) = [] ->
+      SubstL ps (fallback args) o ->
+      Subst ps (TFunc n ln args) o
+  | S_fun ps n ln args o :
       has_var (TFunc n ln args) = true -> String.eqb ln "var" = false ->
-      SubstL ps args args' ->
-      Subst ps (TFunc n ln args) [TFunc n ln args']
-  with SubstL : list string -> list tok -> list tok -> Prop :=
-  | SL_nil ps : SubstL ps [] []
-  | SL_cons ps t r a b : Subst ps t a -> SubstL ps r b -> SubstL ps (t :: r) (a ++ b)%list.
+      SubstL ps args o ->
+      Subst ps (TFunc n ln args) (wrap n ln o)
+  with SubstL : list string -> list tok -> sres -> Prop :=
+  | SL_nil ps : SubstL ps [] (SOk [])
+  | SL_ok ps t r a o : Subst ps t (SOk a) -> SubstL ps r o -> SubstL ps (t :: r) (glue a o)
+  | SL_invalid ps t r : Subst ps t SInvalid -> SubstL ps (t :: r) SInvalid.
 End Subst.
 
 (* the implementation's choices *)
@@ -141,6 +187,9 @@ Definition impl_key := var_key.
 Definition impl_fallback (args : list tok) : list tok := tl (tl (remove_whitespace args)).
 Definition impl_var_name (args : list tok) : option string :=
   match remove_whitespace args with first :: _ => Some (tok_value first) | [] => None end.
+(* len(args) == 1: the name alone *)
+Definition impl_has_fallback (args : list tok) : bool :=
+  match remove_whitespace args with [_] => false | _ => true end.
 
 (* the CSS grammar's: var( <custom-property-name> [, <declaration-value>]? ) - the fallback is everything
    after the first comma, commas included *)
@@ -182,13 +231,14 @@ Definition env_of (l : list (string * list tok)) (k : string) : list tok :=
      end) l.
 
 (* case = (env as [(stored key, tokens)], tokens of the pending value, outcome of the implementation) ;
-   outcome: (0, l) = the solved tokens l ; (n, _) = an exception.
+   outcome: (0, l) = the solved tokens l ; (4, _) = InvalidValues ; (n, _) = another exception.
    bit 0: the model disagrees. *)
 Definition var_judge (c : list (string * list tok) * list tok * (nat * list tok)) : nat :=
   match c with
   | (e, tokens, (code, out)) =>
       match solved_tokens (env_of e) 60 tokens, code with
-      | Some l, 0%nat => if toks_eqb l out then 0%nat else 1%nat
+      | Some (SOk l), 0%nat => if toks_eqb l out then 0%nat else 1%nat
+      | Some SInvalid, 4%nat => 0%nat
       | _, _ => 1%nat
       end
   end.
